@@ -4,13 +4,15 @@ import Driver.Ops.L2
 import Driver.Ops.Real
 import Driver.Ops.OidTime
 import Driver.Ops.Fixer
+import Driver.Ops.CRange
 open Driver
 
 def handlers : List Handler := [
   Driver.Ops.Integer.run,
   Driver.Ops.Real.run,
   Driver.Ops.OidTime.run,
-  Driver.Ops.Fixer.run
+  Driver.Ops.Fixer.run,
+  Driver.Ops.CRange.run
 ]
 
 def step (line : String) : String :=
